@@ -182,10 +182,17 @@ func PoolPolicy(s string)                       {}
 func Note(s string)                             {}
 func Phase(s string)                            {}
 
+// Param: per-job integer parameter (engine: job cfg; native: VERIF_PARAM_<name>).
+func Param(name string) int {
+	var v int
+	fmt.Sscan(os.Getenv("VERIF_PARAM_"+name), &v)
+	return v
+}
+
 var Observed []string
 
-func Observe(name string, b []byte) { Observed = append(Observed, fmt.Sprintf("%s=%x", name, b)) }
-func MutexHeld(p unsafe.Pointer) bool           { return true }
+func Observe(name string, b []byte)   { Observed = append(Observed, fmt.Sprintf("%s=%x", name, b)) }
+func MutexHeld(p unsafe.Pointer) bool { return true }
 func HavocBytes(name string, p unsafe.Pointer, n int) {
 	b := unsafe.Slice((*byte)(p), n)
 	for i := 0; i < n; {
